@@ -1403,6 +1403,9 @@ class ServiceAnnouncer:
         self.started = True
 
     def stop(self):
+        if not self.started:
+            # nothing is running: instances are only started while the announcer is
+            return
         for instance in self.announcing_services:
             instance.stop()
         self.started = False
